@@ -112,8 +112,12 @@ pub fn gen_case(r: &mut Rng, out: &mut String) {
     writeln!(out, "dump b0").unwrap();
     // --- what the serializer is handed
     writeln!(out, "serde_events b0").unwrap();
-    // --- every delivery kind reproduces the value
+    // --- every delivery kind reproduces the value — also right after a deserialization that broke off half-way (a
+    // format error in the middle of the sequence): one call leaves nothing behind for the next one
     for (i, k) in KINDS.iter().enumerate() {
+        if r.chance(1, 4) {
+            writeln!(out, "serde_visit seqfail b6 ser:b0").unwrap();
+        }
         if r.chance(3, 4) {
             let d = format!("b{}", i + 1);
             writeln!(out, "serde_visit {} {} ser:b0", k, d).unwrap();
